@@ -1,4 +1,4 @@
-from .common import LEAN_TB, WSFRAME_TB
+from .common import RUN_WSCONC_SMALL, LEAN_TB, WSFRAME_TB
 
 PROP = {
         "id": "C16",
@@ -31,8 +31,10 @@ PROP = {
             "quick": {"gen": [(150, 4)]},
             "thorough": {"gen": [(1200, 5)]},
             "timeout": 1500,
-        }],
-        "keys": ["wswrite.*", "wshandshake.stale-session"],
+        },
+            # submission order on a real adapter, with automatic replies queued while application frames are in flight (component of C17)
+            RUN_WSCONC_SMALL],
+        "keys": ["wswrite.*", "wshandshake.stale-session", "wsconc.wire-*"],
         # blocking writes on a transport that fails once and works again (outside the model: the wire monitor is stated for a
         # transport that accepts every write)
         "direct": [{"component": "wswrite", "timeout": 600}],
